@@ -153,8 +153,7 @@ def fwStep (caseE pyout : Sexp) : String :=
 
 /-- tags of constructs whose save is known to refuse loudly (validated by the `cls` family) -/
 def loudTags : List String :=
-  ["Roi", "PointROI", "MultiLink", "OffsetLink", "AffineLink", "DaskComponent", "tag:meta-mixed-keys", "tag:unknown-subclass",
-   "tag:catroi-undefined"]
+  ["Roi", "PointROI", "DaskComponent", "tag:meta-mixed-keys", "tag:unknown-subclass", "tag:catroi-undefined"]
 
 /-- label of the first top-level / second-level section in which two snapshots differ -/
 def firstDiff : Sexp → Sexp → String
@@ -221,9 +220,7 @@ def noRecipeAllowed : List String := [
   "glue.core.coordinates.LegacyCoordinates",
   "glue.core.data_factories.helpers.LoadLog",
   "glue.plugins.coordinate_helpers.link_helpers.BaseCelestialMultiLink",
-  "glue.plugins.wcs_autolinking.wcs_autolinking.WCSLink",
-  "glue.plugins.wcs_autolinking.wcs_autolinking.OffsetLink",
-  "glue.plugins.wcs_autolinking.wcs_autolinking.AffineLink"
+  "glue.plugins.wcs_autolinking.wcs_autolinking.WCSLink"
 ]
 
 def clsStep (caseE pyout : Sexp) : String :=
